@@ -247,6 +247,31 @@ def run(out: Outcome) -> None:
                 r = check_trace(out, cls, p, ops, const_after_reset=c, label="after-reset:")
                 if r:
                     runners.append(r)
+    # reset() issued RIGHT AFTER A REPORTED DRIFT (the usual monitoring loop), then another change before the warm-up is over: whatever a detector keeps of its window across
+    # such a reset, the first min_num_instances - 1 updates after it are silent
+    for cls in ("KSWIN", "ADWIN", "CUSUM", "PageHinkley", "GeometricMovingAverage"):
+        p = {"KSWIN": {"alpha": 0.01, "min_num_instances": 40, "num_test_instances": 10}, "ADWIN": {"clock": 1, "delta": 0.3, "min_num_instances": 40, "min_window_size": 2},
+             "CUSUM": {"lambda_": 5.0, "delta": 0.005, "min_num_instances": 40}, "PageHinkley": {"lambda_": 5.0, "delta": 0.005, "alpha": 0.999, "min_num_instances": 40},
+             "GeometricMovingAverage": {"lambda_": 0.5, "alpha": 0.9, "min_num_instances": 40}}[cls]
+        pre = [abs(rng.gauss(0.0, 1.0)) if cls == "ADWIN" else rng.gauss(0.0, 1.0) for _ in range(90)] + [6.0 + abs(rng.gauss(0.0, 1.0)) for _ in range(80)]
+        probe = dets.Runner("p", cls, p)
+        k = None
+        if probe.det is None:
+            continue
+        for i, v in enumerate(pre):
+            probe.update(v)
+            if probe.err is not None:
+                break
+            if probe.det.drift:
+                k = i
+                break
+        if k is None:
+            continue
+        post = [6.0 + abs(rng.gauss(0.0, 1.0)) for _ in range(31)] + [40.0 + abs(rng.gauss(0.0, 1.0)) for _ in range(8)] + [40.0 + abs(rng.gauss(0.0, 1.0)) for _ in range(30)]
+        r = check_trace(out, cls, p, [("u", v) for v in pre[: k + 1]] + [("r",)] + [("u", v) for v in post], label="reset-after-drift:")
+        if r:
+            runners.append(r)
+        out.count("reset_right_after_a_reported_drift")
     # thorough: default configurations on long streams (default warm-ups and windows are only reached after thousands of instances)
     if thorough:
         for cls in dets.CLASSES:
